@@ -230,8 +230,8 @@ func Run(srcDir, dstDir string) (*Descriptor, error) {
 			case *ast.SelectorExpr:
 				if id, ok := x.X.(*ast.Ident); ok && id.Name == "sync" {
 					switch x.Sel.Name {
-					case "Pool":
-						// never blocks
+					case "Pool", "Map":
+						// never hold a lock across user code: cannot block a descheduled task's peers
 					default:
 						d.BlockingSync = append(d.BlockingSync, fmt.Sprintf("%s:%d sync.%s", rel, tf.Line(x.Pos()), x.Sel.Name))
 					}
